@@ -9,6 +9,7 @@ import sys
 
 HERE = os.path.dirname(os.path.dirname(os.path.abspath(__file__)))
 SD = os.path.join(HERE, "seeded")
+CHECK = os.path.join(HERE, "check.py")
 
 
 def add(sid, patch, demo, meta, prop):
@@ -28,16 +29,20 @@ def run(ids, tier="quick", seeds=("1",)):
         ids = sorted(x for x in os.listdir(SD) if os.path.isdir(os.path.join(SD, x)))
     rows = []
     # the checks regenerate lean/AslModel/Generated from the tree they are pointed at and rebuild the driver: runs on changed
-    # trees get a private copy of the Lean project so that they cannot disturb (or be disturbed by) checks run on /repo itself
-    lean_copy = "/var/tmp/asl-verif-main/seedlean-%d" % os.getpid()
-    subprocess.run(["rsync", "-a", "--delete", os.path.join(HERE, "lean") + "/", lean_copy + "/"], check=True)
-    os.environ["VERIF_LEAN"] = lean_copy
+    # trees work in a private snapshot of the whole framework (python + Lean project with its build), so that they cannot
+    # disturb - or be disturbed by - checks run on /repo itself or edits made to /verif while they run
+    snap = "/var/tmp/asl-verif-seeded/verif-%d" % os.getpid()
+    os.makedirs(os.path.dirname(snap), exist_ok=True)
+    subprocess.run(["rsync", "-a", "--delete", "--exclude", ".git", "--exclude", "replays", "--exclude", "__pycache__", HERE + "/", snap + "/"], check=True)
     os.environ["VERIF_SCRATCH"] = "/var/tmp/asl-verif-seeded"
-    os.environ["VERIF_OUT"] = "/var/tmp/asl-verif-seeded/out"
+    for k in ("VERIF_LEAN", "VERIF_OUT"):
+        os.environ.pop(k, None)
+    global CHECK
+    CHECK = os.path.join(snap, "check.py")
     try:
         return _run(ids, tier, seeds, rows)
     finally:
-        shutil.rmtree(lean_copy, ignore_errors=True)
+        shutil.rmtree(snap, ignore_errors=True)
 
 
 def _run(ids, tier, seeds, rows):
@@ -60,7 +65,7 @@ def _run(ids, tier, seeds, rows):
         try:
             outs = []
             for seed in seeds:
-                r = subprocess.run([sys.executable, os.path.join(HERE, "check.py"), prop, "--tier", tier], stdout=subprocess.PIPE, stderr=subprocess.PIPE,
+                r = subprocess.run([sys.executable, CHECK, prop, "--tier", tier], stdout=subprocess.PIPE, stderr=subprocess.PIPE,
                                    env=dict(os.environ, VERIF_SEED=seed, VERIF_REPO=copy))
                 lines = [l for l in r.stdout.decode().split("\n") if l.startswith("VIOLATION")]
                 outs.append((r.returncode, lines[:1]))
